@@ -360,3 +360,28 @@ def run(ctx):
             "int64 wrap is the expectation for overflowing table cells (the property says 64-bit wrapping integers)",
             "native binaries are built with nanoc's own flags (no optimisation), via fastcc",
         ])
+
+
+def replay(ctx, path):
+    """re-run the stored program on both engines and compare with the stored expectation (expected.stdout /
+    reference.stdout)"""
+    import os
+    plain = build.get("plain")
+    files = sweep.replay_files(path)
+    exp = None
+    for fn in ("expected.stdout", "reference.stdout"):
+        if os.path.exists(os.path.join(path, fn)):
+            exp = open(os.path.join(path, fn)).read()
+    with Scratch("c02r") as sc:
+        o = engines.observe(plain, sc.sub("p"), files)
+        bad = False
+        for eng, res in (("native", o.native), ("vm", o.vm)):
+            if res is None:
+                print("replay: %s did not build/run" % eng)
+                continue
+            same = exp is not None and (res.text() == exp or ("<<S\n" + exp + ">>E\n") == res.text())
+            print("replay %s: %s output %s the stored expectation (exit %s)" % (path, eng, "equals" if same else "DIFFERS from", res.status))
+            bad = bad or not same
+        if bad:
+            print("VIOLATION property=C02 replay=%s" % path)
+        return 1 if bad else 0
